@@ -171,7 +171,7 @@ impl RGraph {
         let nk = |i: usize| -> String {
             match self.nodes[i].props.get("uid") {
                 Some(v) if !v.is_null() => format!("u:{}", v.canon()),
-                _ => format!("anon:{:?}:{:?}", self.nodes[i].labels, self.nodes[i].props.iter().map(|(k, v)| (k.clone(), v.canon())).collect::<Vec<_>>()),
+                _ => format!("anon:{:?}:{:?}", self.nodes[i].labels, self.nodes[i].props.iter().filter(|(_, v)| !v.is_null()).map(|(k, v)| (k.clone(), v.canon())).collect::<Vec<_>>()),
             }
         };
         let mut ns: Vec<String> = self
@@ -202,7 +202,7 @@ pub fn store_dump(store: &GraphStore) -> (Vec<String>, Vec<String>) {
         let labels: BTreeSet<String> = n.labels.iter().map(|l| l.as_str().to_string()).collect();
         let k = match props.get("uid") {
             Some(v) if !v.is_null() => format!("u:{}", v.canon()),
-            _ => format!("anon:{:?}:{:?}", labels, props.iter().map(|(k, v)| (k.clone(), v.canon())).collect::<Vec<_>>()),
+            _ => format!("anon:{:?}:{:?}", labels, props.iter().filter(|(_, v)| !v.is_null()).map(|(k, v)| (k.clone(), v.canon())).collect::<Vec<_>>()),
         };
         key.insert(id.as_u64(), k.clone());
         ns.push(format!("N {} :{} {:?}", k, labels.iter().cloned().collect::<Vec<_>>().join(":"), props.iter().filter(|(_, v)| !v.is_null()).map(|(k, v)| (k.clone(), v.canon())).collect::<Vec<_>>()));
